@@ -977,7 +977,43 @@ impl SubCheck for FSub {
             let body = serde_json::json!({"property": self.prop, "engine": "simlab", "sub": self.name, "case": c});
             let _ = std::fs::write(format!("{}/inflight-{:?}.json", dir, std::thread::current().id()), body.to_string());
         }
-        match eval_fcase(c, self.prop) {
+        // heap balance (C19, single-threaded cases whose inner simulations are single-threaded too)
+        let heap_case = self.prop == "C19"
+            && matches!(c.base.exec, Exec::St { .. })
+            && !c.base.bench.models.iter().any(|m| {
+                m.init.iter().chain(m.scripts.iter().flatten()).any(|o| matches!(o, Op::Nested { threads, .. } if *threads > 1))
+            });
+        let before = heap_mark();
+        let first = eval_fcase(c, self.prop);
+        let after = heap_mark();
+        let mut heap_checked = false;
+        if heap_case && first.is_ok() {
+            heap_checked = true;
+            let surplus = after.0 - before.0;
+            if surplus > 0 {
+                // one-time initialisations (lazy statics, thread-locals) do not repeat: re-run twice
+                let mut again = Vec::new();
+                for _ in 0..2 {
+                    let b = heap_mark();
+                    let r = eval_fcase(c, self.prop);
+                    let a = heap_mark();
+                    if r.is_ok() {
+                        again.push((a.0 - b.0, a.1 - b.1));
+                    }
+                }
+                if again.len() == 2 && again.iter().all(|x| x.0 > 0) {
+                    return ffail(
+                        &["C19"],
+                        "heap-leak",
+                        format!(
+                            "after dropping the simulation and everything that belongs to it, the driver thread holds {} more live heap block(s) ({} bytes) than before the bench was built; the surplus repeats on re-runs ({:?}) while every drop-counting token was dropped (fault {:?})",
+                            again[0].0, again[0].1, again, c.fault
+                        ),
+                    );
+                }
+            }
+        }
+        match first {
             Err(v) => v,
             Ok(i) => {
                 let mut cl: Vec<&'static str> = Vec::new();
@@ -1023,6 +1059,9 @@ impl SubCheck for FSub {
                 }
                 if i.known_hit {
                     cl.push("KNOWN C11/secondary-send-error-masks-first-failure");
+                }
+                if heap_checked {
+                    cl.push("heap-balance-checked");
                 }
                 let nt = match self.prop {
                     "C16" => i.fault_in_submodel,
